@@ -1349,6 +1349,11 @@ def mutations(doc: dict, instance: Any) -> list[Mutation]:
             subs = [c.validator for c in e.context or []]
             if m.keyword not in subs and not (m.keyword == "minimum" and "exclusiveMinimum" in subs):
                 continue
+            # one-step means ONE violated constraint: a value that another alternative refuses only because of a
+            # bound of its own (a wrong-typed `[]` next to an array alternative with minItems) violates two
+            same = {m.keyword, *({"exclusiveMinimum", "exclusiveMaximum"} if m.keyword in ("minimum", "maximum") else ())}
+            if any(c in (*BOUND_KEYS, *STR_KEYS, *ARR_KEYS) and c not in same for c in subs):
+                continue
             m.in_union = True
         else:
             want = {m.keyword}
